@@ -6386,6 +6386,33 @@ mod tests {
         );
     }
 
+    /// An explicit indentation indicator counts from the collection the block
+    /// scalar belongs to. For the first entry of a compact nested collection
+    /// that is the column of the inner `-` or of the key, which the decoder
+    /// took to be the line's own indentation (plus a fixed 2 for a key).
+    #[test]
+    fn block_scalar_indentation_indicator_in_a_compact_first_entry() {
+        for (yaml, expected) in [
+            (&b"- - |2\n     y\n"[..], "[[\" y\\n\"]]"),
+            (
+                b"- - |2\n     y\n  - |2\n     z\n",
+                "[[\" y\\n\",\" z\\n\"]]",
+            ),
+            (b"-   k: |2\n       y\n", "[{\"k\":\" y\\n\"}]"),
+            (b"- k: |1\n    y\n", "[{\"k\":\" y\\n\"}]"),
+            (b"- |1\n  y\n", "[\" y\\n\"]"),
+            (b"- - |\n    y\n", "[[\"y\\n\"]]"),
+        ] {
+            let index = crate::yaml::YamlIndex::build(yaml).expect("should parse");
+            assert_eq!(
+                index.root(yaml).to_json_document(),
+                expected,
+                "input: {:?}",
+                core::str::from_utf8(yaml)
+            );
+        }
+    }
+
     #[test]
     fn test_block_in_sequence() {
         let yaml = b"- |\n  item\n- value\n";
